@@ -312,3 +312,45 @@ fn c11_maxub_kernel() {
     kani::cover!(ub1 == ub2 && v1 == v2 && s1 < s2, "double tie reachable");
     assert!(maxub_clause(ub1, v1, s1, ub2, v2, s2).is_ok());
 }
+
+// ------------------------------------------------------------------ C11(a): SimpleFringe, three symbolic pushes
+/// pushes three sub-problems with the given (ub, value) and returns the pop order (indices)
+pub fn simple_fringe_pop_order(k: [(isize, isize); 3]) -> [usize; 3] {
+    let r = ByState;
+    let mut f = SimpleFringe::new(MaxUB::new(&r));
+    for (i, (ub, v)) in k.iter().enumerate() {
+        f.push(SubProblem { state: Arc::new(i as u8), value: *v, path: vec![], ub: *ub, depth: 0 });
+    }
+    let mut out = [9usize; 3];
+    for slot in out.iter_mut() {
+        let n = f.pop().expect("three elements were pushed");
+        *slot = *n.state as usize;
+        std::mem::forget(n);
+    }
+    assert!(f.pop().is_none());
+    assert!(f.len() == 0);
+    std::mem::forget(f);
+    out
+}
+pub fn simple_fringe_clause(k: [(isize, isize); 3]) -> Result<(), &'static str> {
+    let o = simple_fringe_pop_order(k);
+    if !(o.contains(&0) && o.contains(&1) && o.contains(&2)) {
+        return Err("a sub-problem was lost or invented");
+    }
+    for w in 0..2 {
+        let (a, b) = (k[o[w]], k[o[w + 1]]);
+        // non-increasing (ub, value, state) order
+        if (a.0, a.1, o[w]) < (b.0, b.1, o[w + 1]) {
+            return Err("pop order is not non-increasing in (ub, value, ranking)");
+        }
+    }
+    Ok(())
+}
+#[cfg(kani)]
+#[kani::proof]
+#[kani::unwind(9)]
+fn c11_simple_fringe_three_pushes() {
+    let k: [(isize, isize); 3] = [(kani::any(), kani::any()), (kani::any(), kani::any()), (kani::any(), kani::any())];
+    kani::cover!(k[0].0 == k[1].0 && k[0].1 < k[1].1, "ub tie broken by value reachable");
+    assert!(simple_fringe_clause(k).is_ok());
+}
